@@ -3,6 +3,7 @@ C17 — Cog21: for t > 0 (the only times the solver accepts) its shock is an EXP
 -/
 import EPV.Gen.Cog21
 import EPV.Lemmas.HydroTactics
+import EPV.Lemmas.Bridge.Cog21
 
 set_option linter.all false
 
@@ -45,20 +46,28 @@ theorem finding_cog21_expansion_shock (p : Cog21.P) (r t : ℝ) (hρ : 0 < p.rho
   have hs : 0 < cog21Shock p t := by unfold cog21Shock; positivity
   have hD : 0 < 4 / (p.Gamma * p.temp0 * t ^ 3) := by positivity
   have hns : cog21Shock p t = 2 / (p.Gamma * p.temp0 * t ^ 2) := rfl
+  -- branch selection with the documented conditions, leaf values through their documented closed forms
+  -- (Lemmas/Bridge/Cog21.lean): the proof does not depend on how cog21.py writes the formulas
+  have hn : ∀ x, ¬ Cog21.c0 p x t := fun x => by rw [EPV.Bridge.cog21_c0_iff]; linarith
+  have hc_in : Cog21.c1 p r t := (EPV.Bridge.cog21_c1_iff p r t).2 (by rw [hns] at hr; exact hr)
+  have hc_out : ¬ Cog21.c1 p (cog21Shock p t) t := by
+    rw [EPV.Bridge.cog21_c1_iff, ← hns]; exact lt_irrefl _
+  have hnr := hn r
+  have hnS := hn (cog21Shock p t)
   refine ⟨?_, ?_, ?_, ?_, ?_, ?_, ?_⟩
-  · epv_select; simp only [epv_leaf]
+  · simp only [epv_tree, if_neg hnr, if_pos hc_in, EPV.Bridge.cog21_post_velocity]
     rw [neg_div, sub_neg_eq_add, zero_add]; exact hD
-  · epv_select; simp only [epv_leaf]
+  · simp only [epv_tree, if_neg hnS, if_neg hc_out, EPV.Bridge.cog21_pre_velocity]
     rw [neg_div, sub_neg_eq_add]; positivity
   · have : 0 < Cog21.density p (cog21Shock p t) t := by
-      epv_select; simp only [epv_leaf]; positivity
+      simp only [epv_tree, if_neg hnS, if_neg hc_out, EPV.Bridge.cog21_pre_density]; positivity
     linarith
-  · epv_select; simp only [epv_leaf]
+  · simp only [epv_tree, if_neg hnS, if_neg hc_out, EPV.Bridge.cog21_pre_density]
     field_simp
-  · epv_select; simp only [epv_leaf]
+  · simp only [epv_tree, if_neg hnr, if_pos hc_in, EPV.Bridge.cog21_post_density]
     field_simp
-  · epv_select; simp only [epv_leaf]; ring
-  · epv_select; simp only [epv_leaf]; positivity
+  · simp only [epv_tree, if_neg hnS, if_neg hc_out, EPV.Bridge.cog21_pre_pressure]
+  · simp only [epv_tree, if_neg hnr, if_pos hc_in, EPV.Bridge.cog21_post_pressure]; positivity
 
 /-- non-vacuity at the solver's defaults (ρ₀ = 1.8, T₀ = 2.9, Γ = 400) -/
 example : ∃ (p : Cog21.P) (r t : ℝ), 0 < p.rho0 ∧ 0 < p.temp0 ∧ 0 < p.Gamma ∧ 0 < t ∧ 0 < r ∧ r < cog21Shock p t :=
